@@ -148,6 +148,14 @@ func (r *rec) do(th int, c call) {
 		n = r.s.AddSet(setOf(c.v))
 	case "RemoveSet":
 		n = r.s.RemoveSet(setOf(c.v))
+	case "RangePanic+Add":
+		// a Range whose callback panics at its first call (recovered by the caller), then an ordinary Add:
+		// the set must be as usable as before
+		func() {
+			defer func() { recover() }()
+			r.s.Range(func(int) bool { panic("callback failed") })
+		}()
+		ok = r.s.Add(c.v)
 	case "AddSelf": // the set passed to itself
 		n = r.s.AddSet(r.s)
 	case "RemoveSelf":
@@ -158,6 +166,8 @@ func (r *rec) do(th int, c call) {
 	inv, ret := vrt.End()
 	base := len(r.ops[th])
 	switch c.op {
+	case "RangePanic+Add":
+		r.ops[th] = append(r.ops[th], lin.Op{Kind: "Add", Key: c.v, Ok: ok, Thread: th, Inv: inv, Ret: ret})
 	case "Add", "Remove", "Has":
 		r.ops[th] = append(r.ops[th], lin.Op{Kind: c.op, Key: c.v, Ok: ok, Thread: th, Inv: inv, Ret: ret})
 	case "AddSet", "RemoveSet":
@@ -471,7 +481,7 @@ func main() {
 	// the set passed to itself (RemoveSet(s) on s empties it, AddSet(s) changes nothing) against single
 	// calls and two-call programs of another thread, from every layout
 	for _, li := range layouts {
-		for _, self := range []call{{"RemoveSelf", 0}, {"AddSelf", 0}} {
+		for _, self := range []call{{"RemoveSelf", 0}, {"AddSelf", 0}, {"RangePanic+Add", 1}} {
 			scs = append(scs, scenario(li, [][]call{{self}}, -1, -2))
 			for _, b := range []call{{"Add", 0}, {"Remove", 0}, {"Add", 1}, {"Has", 0}, {"Len", 0}} {
 				scs = append(scs, scenario(li, [][]call{{self}, {b}}, -1, ev.Pick(r, -2, 1)))
